@@ -217,7 +217,29 @@ def callee_name(term):
         return ''
     if c.get('trait'):
         return _last(c['trait']['trait']) + '::' + c['trait']['name']
-    segs = _strip_generics(c['path']).split('::')
+    return short_path(c['path'])
+
+
+def short_path(path):
+    """`Type::method` for inherent impl paths (`a::b::<impl x::Type<C>>::method`), else the last two segments"""
+    i = path.find('<impl ')
+    if i >= 0:
+        depth = 0
+        j = i
+        for j in range(i, len(path)):
+            if path[j] == '<':
+                depth += 1
+            elif path[j] == '>':
+                depth -= 1
+                if depth == 0:
+                    break
+        inner = path[i + 6:j]
+        rest = path[j + 1:]
+        if ' for ' in inner:
+            inner = inner.split(' for ')[-1]
+        ty = _last(_strip_generics(inner)) or inner
+        return ty + '::' + '::'.join(x for x in _strip_generics(rest).split('::') if x)
+    segs = [x for x in _strip_generics(path).split('::') if x]
     return '::'.join(segs[-2:])
 
 
